@@ -106,6 +106,23 @@ func runC11(c *Ctx) {
 			tc.cfg = cs.cfg
 			cs = tc
 		}
+		if i%40 == 13 {
+			// maps with number- and bool-kinded keys (and `,string` numbers) given texts that are words,
+			// signs or oddly spelt numbers: the implementations must agree on which of them are keys
+			r := c.Rng(i + 1<<25)
+			kt := []reflect.Type{reflect.TypeOf(int(0)), reflect.TypeOf(int8(0)), reflect.TypeOf(int32(0)), reflect.TypeOf(int64(0)), reflect.TypeOf(uint(0)), reflect.TypeOf(uint16(0)), reflect.TypeOf(uint64(0)), reflect.TypeOf(uintptr(0)), reflect.TypeOf(cat.NamedInt(0))}[r.Intn(9)]
+			word := []string{"null", "true", "false", "-", "", "NaN", " 1", "1 ", "1.0", "1e2", "0x10", "-0", "128", "-129", "65536", "18446744073709551616", "9223372036854775808"}[r.Intn(17)]
+			tc := *cs
+			tc.t = reflect.MapOf(kt, reflect.TypeOf(0))
+			tc.doc = `{"7":1,"` + word + `":2,"9":3}`
+			if r.Chance(1, 3) {
+				tc.t = reflect.StructOf([]reflect.StructField{{Name: "A", Type: kt, Tag: `json:"a,string"`}})
+				tc.doc = `{"a":"` + word + `"}`
+			}
+			tc.exact, tc.prefill, tc.label = false, false, "word-or-odd-number key"
+			cs = &tc
+			c.Count("word_or_odd_number_key_cases", 1)
+		}
 		if os.Getenv("VERIF_DDMIN") != "" {
 			// triage aid: shrink the document while Unmarshal still panics
 			bad := func(doc string) (p bool) {
